@@ -1308,8 +1308,8 @@ func TestC13(t *testing.T) {
 		ds = append(ds, fmt.Sprintf("p%d:%s", tsdb.NewSeriesFile("").SeriesKeyPartitionID(k.bytes()), k))
 	}
 	r.Extra("domain", ds)
-	n := gixN(r, 150, 5000)
-	crashOps := r.N(10, 120) // histories whose chosen op is torn at every byte
+	n := gixN(r, 150, 1500)
+	crashOps := r.N(10, 60) // histories whose chosen op is torn at every byte
 	every := n / crashOps
 	if every < 1 {
 		every = 1
@@ -1323,7 +1323,7 @@ func TestC13(t *testing.T) {
 		c13RunHistory(t, r, rep, i, domain, ck)
 	}
 	c13Drain(r)
-	nc := gixN(r, 40, 1500)
+	nc := gixN(r, 40, 400)
 	t0 := time.Now()
 	for i := 0; i < nc; i++ {
 		c13Concurrent(t, r, rep, i, domain)
